@@ -18,7 +18,7 @@
    `_refuted_for_...` theorems record what was wrong with the earlier shapes. *)
 From Coq Require Import List NArith Bool Arith.
 From SV Require Import lib.Bytes lib.SqlExpr gen.GenSched model.Sched proofs.SchedProofs proofs.SchedPrims
-  proofs.SchedSeq.
+  proofs.SchedSeq proofs.SchedTermination.
 Import ListNotations.
 Open Scope N_scope.
 
@@ -136,6 +136,45 @@ Theorem C10_defer_count_counts_defers :
   forall cap l s, Forall no_success l ->
     s_defer_count (run_events cap s l) = s_defer_count s + count_defers l.
 Proof. exact defer_count_run. Qed.
+
+(* ---- the outcome of a job never hands the same job out again without an intervening change ---- *)
+
+(* Only PENDING steps that are not deferred are dispatched. *)
+Theorem C10_dispatched_step_is_pending_and_not_deferred :
+  forall g s, In s (dispatch_set g) -> s_state s = ST_PENDING /\ s_deferred s = false.
+Proof. intros g s H. split; [eapply dispatch_set_pending | eapply dispatch_set_not_deferred]; exact H. Qed.
+
+(* validate_dynamic_job with an unchanged digest puts the step back with the state and the deferred flag
+   read from the repository's executor.py (PENDING, deferred since d760e3e): whatever the metadata
+   updates compute, the step is in no dispatch set until something clears the flag
+   (Workflow.mark_step_pending, when one of its inputs changes). *)
+Theorem C10_validate_unchanged_not_dispatched :
+  forall g k g' s,
+    update_meta (set_step_state g k validate_unchanged_state validate_unchanged_deferred) = Some g' ->
+    In s (dispatch_set g') -> s_key s <> k.
+Proof. exact validate_unchanged_not_dispatched_repo. Qed.
+
+(* Executor._reset_step_to_pending (hash mismatch, changed dynamic inputs) deletes the stored hash: the
+   next job of the step is a run, which ends with Step.mark_completed: SUCCEEDED, FAILED, or PENDING
+   with defer_count + 1 <= cap (C10_defer_cap_bound). *)
+Theorem C10_reset_to_pending_next_job_runs :
+  forall g k r,
+    In r (g_steps (set_step_state (set_step_hash g k false) k ST_PENDING false)) -> s_key r = k ->
+    dispatched_state r = dispatch_state_without_hash.
+Proof. exact reset_to_pending_next_job_runs. Qed.
+
+(* D36 (fixed by d760e3e): with Step.set_state(PENDING) -- not deferred -- after an unchanged validation,
+   there is a snapshot with every cached attribute correct in which a step with a stored hash is
+   dispatched (CHECKING), validated as unchanged, and then is in the dispatch set again with the same
+   state, defer count and stored hash, over the same files and edges: the same job is handed out for
+   ever and the build phase never ends. *)
+Theorem C10_validate_without_defer_refuted :
+  exists g k, WF g /\ Acyclic g /\ AllCorrect g /\ HasHashInv g /\
+    let dispatched := set_step_state g k dispatch_state_with_hash false in
+    let outcome := set_step_state dispatched k ST_PENDING false in
+    exists g', update_meta outcome = Some g' /\ AllCorrect g' /\ same_decision g g' k = true /\
+               g_files g' = g_files g /\ g_deps g' = g_deps g.
+Proof. exact validate_without_defer_refuted. Qed.
 
 (* ---- D8 (fixed by f76dbc9): the earlier dependency delete trigger ---- *)
 
